@@ -6,11 +6,72 @@ import subprocess
 
 HERE = os.path.dirname(os.path.dirname(os.path.abspath(__file__)))
 
+KANI = "bounded model checking of the compiled Rust code (Kani 0.68 / CBMC 6.11 + CaDiCaL SAT)"
 CLAIMED = {
+    "C01": dict(
+        text="Bounded model checking of the REAL High/LowRateDecoder code over an executable engine contract: for every configuration with work size <= 8, every erasure pattern (all subsets for k+r <= 5, maximal-loss and surplus patterns above) and every original position, the solver decides for all 2^16 symbol values that decode returns Ok with exactly the missing originals, byte-exact. Tests fix one pattern per configuration; the solver covers every pattern and every value.",
+        note="Engine contract (SpecEngine) stands for the real engines (refinement: C15/C03, composition outside the solver); eval_poly by contract; recovery shards from the closed form of C02; basis form + linearity; low rate: 65k-iteration fill replaced by a ghost-range stub; default/one-shot objects not executed (DESIGN 11.2.3).",
+        design="6/C01, 11.4", technique=KANI + "; real rate layer over a contract engine, basis form per erasure pattern"),
+    "C02": dict(
+        text="For every (k,r) with work size <= 16, both rates, every original position: the real encoder's recovery symbols equal G[j][i]*x for all 2^16 values of x, with G from the closed form computed by an independent oracle (field polynomial + Cantor basis only); known-answer harnesses tie the model to native execution of the real crate; deliberately false twins must be refuted.",
+        note="SpecEngine contract (real engines: C15/C03); additivity from C13 completes 'for all data'; interoperability with reed-solomon-16 only through the closed form.",
+        design="6/C02, 11.4", technique=KANI + "; differential against an independent closed-form oracle"),
+    "C03": dict(
+        text="Miter harnesses: Ssse3, Avx2 (real intrinsics code, only pshufb modelled) and Naive against NoSimd on fully symbolic 64-byte-block buffers including guard shards: identical bytes for every fft/ifft call tuple in the bound; Naive::mul vs NoSimd::mul; known answers against native execution per engine.",
+        note="x86-64 engines and Naive only (Neon port not built); sizes <= 8; pshufb models validated by the known-answer harnesses; mul equality via C15's arbitrary-row proofs + z3 T3.",
+        design="6/C03, 11.4", technique=KANI + "; engine-vs-engine miters on symbolic buffers"),
+    "C04": dict(
+        text="Layout (insert/undo inverse, documented placement, exact sizes) for all slots of shard sizes {2,4,30,62,64,66,126,128,130}; slot independence through the real encoders/decoders over the lane-wise contract engine with every other byte of every shard arbitrary.",
+        note="SpecEngine applied lane by lane; real engines' lane locality from C15/C03; sizes > 130 outside.",
+        design="6/C04, 11.4", technique=KANI + "; symbolic junk in all other slots"),
+    "C05": dict(
+        text="2-safety by adversarial stale memory: under the poison hook every byte of working memory that survives a reset / cross-rate hand-over is nondeterministic, and the following round must still equal the specification; round-drop-round on fully symbolic first-round data; state after adds+reset equals a fresh codec's state.",
+        note="poison hook (verif-hooks) in Shards::resize; SpecEngine; dedicated codecs (default codec's reset is the same calls: C09); bounded histories.",
+        design="6/C05, 11.4", technique=KANI + "; nondeterministic stale working memory via hook"),
+    "C06": dict(
+        text="Every fallible entry point with unbounded symbolic indexes / fully symbolic invalid configuration arguments: Ok iff no documented precondition is violated, Err variant and fields truthful; Kani's full check set (overflow, bounds, unwrap, unreachable) gives panic-freedom on all explored paths, including decode for every received set of four configurations.",
+        note="NullEngine (error behaviour is data independent); preconditions transcribed into the harness; rounds on default codecs not executed.",
+        design="6/C06, 11.4", technique=KANI + "; full-width symbolic arguments, full check set"),
+    "C07": dict(
+        text="For every failing-call class (bad index unbounded, duplicate, wrong length, surplus, too few, 11 invalid-reset classes) on dedicated and default codecs: the complete internal state (configuration, counters, bitmap, every byte of working memory via a nondeterministic probe position, pointers, inner rate) is identical before and after the failed call; dedicated codecs then finish the round.",
+        note="state observed through read-only hook views; one-shard prefix; NullEngine.",
+        design="6/C07, 11.4", technique=KANI + "; state snapshot equality across the failing call"),
     "C08": dict(
-        text="Complete decision (no bound other than the 64-bit word) of supports/validate against the README envelope for all nine codec types and of the work-space arithmetic for every supported pair; new/reset agreement decided per argument class. Right level: these functions are loop-free integer code, so the solver covers every value, which no enumeration of 0..65537^2 plus samples could.",
-        note="Kani/CBMC translation of the compiled code; README envelope transcribed by hand; executing corner configurations end to end is outside the bound.",
-        design="6/C08", technique="bounded model checking of the compiled code (Kani/CBMC + SAT), full-width symbolic arguments"),
+        text="Complete decision (no bound other than the 64-bit word) of supports/validate against the README envelope for all nine codec types and of the work-space arithmetic for every supported pair. These functions are loop-free integer code, so the solver covers every value, which no enumeration of 0..65537^2 plus samples could.",
+        note="README envelope transcribed by hand; new/reset agreement with validate: C06 (fully symbolic invalid arguments) and C09; executing corner configurations end to end is outside the bound.",
+        design="6/C08", technique=KANI + "; full-width symbolic arguments, complete"),
+    "C09": dict(
+        text="(a) the selection rule for all 2^128 pairs; (b) DefaultRate new/reset build exactly the dedicated codec's state with the rule's rate; (c) every DefaultRate method delegates (identical Results and state vs the dedicated codec for unbounded symbolic indexes and on decode's cheap arms). Complete rounds through the default codec are not executable under CBMC and are not claimed.",
+        note="decomposition argument outside the solver (thin match-arm delegation); ReedSolomon wrappers are one-line newtypes; NullEngine.",
+        design="6/C09, 11.2.3, 11.4", technique=KANI + "; rule decided at full width, construction/delegation by twin comparison"),
+    "C10": dict(
+        text="One-shot decode/encode on inputs that violate a precondition or give all originals: Err iff violated, truthful variant/fields, Ok(empty) otherwise - for unbounded symbolic indexes, with and without recovery shards.",
+        note="success paths that restore shards are NOT decided (DefaultRate round + HashMap); DefaultEngine under mask 0 with dummy tables; entry counts <= 3.",
+        design="6/C10, 11.4", technique=KANI + "; symbolic indexes, truthfulness predicates per Error variant"),
+    "C11": dict(
+        text="State confluence under adjacent transposition of two add calls (symbolic valid indexes and bytes, twin decoders, complete logical state incl. all working memory) - every order is a product of such swaps; surplus/given-originals clauses through the exhaustive pattern families of C01/C06/C12.",
+        note="decode is a deterministic function of the compared state; configurations <= (3,2)/(2,3).",
+        design="6/C11, 11.4", technique=KANI + "; twin decoders, adjacent-transposition confluence"),
+    "C12": dict(
+        text="recovery(i)/restored_original(i) for unbounded symbolic i, iterator contents/order/termination (None forever), and that dropping a result forgets every added shard (counters and bitmap) so that further rounds succeed; all received sets of four configurations.",
+        note="NullEngine; 2-3 consecutive rounds.",
+        design="6/C12, 11.4", technique=KANI + "; unbounded symbolic index, full check set"),
+    "C13": dict(
+        text="Additivity of the real encoders over the contract engine for two fully symbolic data sets (work size <= 8); additivity of the real NoSimd fft/ifft and linearity of mul for arbitrary table rows in C15.",
+        note="homogeneity through C02's basis form; SpecEngine.",
+        design="6/C13, 11.4", technique=KANI + "; 3-run additivity on symbolic data"),
+    "C14": dict(
+        text="One harness per subset of {AVX2, SSSE3}: under the hook's feature mask DefaultEngine executes exactly the best reported ISA for mul/fft/ifft/eval_poly (trace of target_feature entry points), none when nothing is reported, with bytes identical to NoSimd on symbolic blocks; every engine's eval_poly reaches the shared implementation unchanged.",
+        note="feature-mask + ISA-trace hooks; pshufb models; eval_poly body replaced by a marker; Neon branch not compiled on this host.",
+        design="6/C14, 11.4", technique=KANI + "; enumerated feature masks, ISA trace"),
+    "C15": dict(
+        text="Real NoSimd fft/ifft equal the LCH-basis matrices of an independent oracle (basis per input position on symbolic 64-byte blocks + additivity) for every call tuple in the bound; mul of NoSimd/Ssse3/Avx2 is the lane-wise linear map of an ARBITRARY table row; z3 decides that the exp/log/skew/Walsh/multiplication tables produced by the real initialisers equal their definitions at all 65536 indexes.",
+        note="eval_poly end to end and the fwht loop schedule are NOT decided (65536-point transforms); sizes <= 8; composition steps outside the solver.",
+        design="6/C15, 11.4", technique=KANI + " and z3 (QF_UFBV) over tables dumped from the real initialisers"),
+    "C17": dict(
+        text="Pointer and capacity stability of the working space and the received bitmap over rounds, non-growing resets and cross-rate hand-over (12 configuration pairs x encoder/decoder), growth only when the need exceeds the held capacity.",
+        note="decided as 'buffers keep address and capacity' because allocator calls cannot be counted under Kani; temporary allocations would escape.",
+        design="6/C17, 11.4", technique=KANI + "; pointer/capacity observation through hook views"),
 }
 
 NOT_YET = {
